@@ -180,6 +180,204 @@ impl Family for Positions {
     }
 }
 
+// ---------------------------------------------------------------------------------------------------------------
+// Diagnostics: span inside the offending element; snippet shows the right line number and underlines exactly the
+// spanned columns (tabs, CRLF, non-ASCII).
+
+use super::c14::{diag_source, N_SOURCES};
+use crate::model::ast::MFile;
+use crate::model::rules;
+use slicec::diagnostic_emitter::DiagnosticEmitter;
+use slicec::slice_options::SliceOptions;
+
+pub struct DiagnosticSpans {
+    pub arity: usize,
+}
+const DIAG_LAYOUTS: [Sep; 6] = [Sep::Space, Sep::Newline, Sep::Tab, Sep::CrLf, Sep::MultiByteComment, Sep::BlankLinesIndent];
+
+fn visual(chars: &[char], n: usize) -> usize {
+    (0..n).map(|i| if chars.get(i) == Some(&'\t') { 4 } else { 1 }).sum()
+}
+
+/// extent (first token incl. prelude, last token) of top-level definition `di` of a rendered file
+fn def_extent(r: &Rendered, di: usize) -> Option<(Loc, Loc)> {
+    let defs: Vec<&Node> = r.tree.children.iter().filter(|c| !matches!(c.kind, "fileattr" | "module")).collect();
+    let d = defs.get(di)?;
+    fn min_first(n: &Node, m: &mut usize) {
+        if let Some(p) = &n.pos {
+            *m = (*m).min(p.first);
+        }
+        for c in &n.children {
+            min_first(c, m);
+        }
+    }
+    let mut first = usize::MAX;
+    min_first(d, &mut first);
+    let last = d.pos.as_ref()?.last;
+    Some((r.tok_pos[first].0, r.tok_pos[last].1))
+}
+
+impl Family for DiagnosticSpans {
+    fn name(&self) -> String {
+        format!("diagnostic-spans-and-snippets/{} of {} diagnostic sources x 6 layouts (tabs, CRLF, multi-byte comments, one token per line)", ["", "singles", "ordered pairs"][self.arity], N_SOURCES)
+    }
+    fn len(&self) -> u64 {
+        (N_SOURCES as u64).pow(self.arity as u32) * 6
+    }
+    fn describe(&self, idx: u64) -> Value {
+        let (p, layout, ks) = self.decode(idx);
+        let r = render_program(&p, &layout);
+        serde_json::json!({"sources": ks, "layout": layout.describe(), "file": r[0].text})
+    }
+    fn run(&self, idx: u64) -> CaseOut {
+        let (p, layout, ks) = self.decode(idx);
+        let rendered = render_program(&p, &layout);
+        let mut out = CaseOut::new(case_hash(&rendered));
+        out.validated = 1;
+        out.nontrivial = true;
+        let keep = rendered.clone();
+        let violations = rules::check(&p);
+        let c = match compile_rendered(rendered, None) {
+            Ok(c) => c,
+            Err((loc, _)) => {
+                out.class = format!("panic@{loc}");
+                return out; // crashes are C01's / C04's subject
+            }
+        };
+        let Compiled { files, diags, raw_diags, .. } = c;
+        let mut obligations = 0u64;
+        let text0 = &keep[0].text;
+        for (di, (d, raw)) in diags.iter().zip(raw_diags.into_iter()).enumerate() {
+            let (Some(file), Some(sp)) = (&d.file, d.span) else { continue };
+            let fi: usize = file.trim_start_matches("string-").parse().unwrap_or(0);
+            let r = &keep[fi];
+            let lines: Vec<&str> = r.text.lines().collect();
+            let s = Loc { row: sp.sr, col: sp.sc };
+            let t = Loc { row: sp.er, col: sp.ec };
+            obligations += 1;
+            let ctx = |what: &str| format!("diagnostic #{di} {} ({}) span {}:{}..{}:{}: {what}\n--- input (file {fi}) ---\n{}", d.code, d.message.lines().next().unwrap_or(""), s.row, s.col, t.row, t.col, r.text);
+            if !le(s, t) || s.row < 1 || s.col < 1 || t.row > lines.len() + 1 {
+                out.violate(format!("c09/diagnostic/{}/span-outside-file-or-reversed", d.code), ctx("span is reversed or outside the file"));
+                continue;
+            }
+            // inside the offending element (known to the injector): rule violations carry their definition
+            if d.level == "error" {
+                let mine: Vec<&rules::Violation> = violations.iter().filter(|v| v.code == d.code && v.file == fi && v.def != usize::MAX).collect();
+                if !mine.is_empty() && !violations.iter().any(|v| v.code == d.code && v.def == usize::MAX) {
+                    obligations += 1;
+                    let inside = mine.iter().any(|v| def_extent(r, v.def).map_or(false, |(a, b)| le(a, s) && le(t, b)));
+                    if !inside {
+                        out.violate(format!("c09/diagnostic/{}/span-outside-offending-element", d.code), ctx(&format!("the definitions violating this rule occupy {:?}", mine.iter().filter_map(|v| def_extent(r, v.def)).map(|(a, b)| format!("{}:{}..{}:{}", a.row, a.col, b.row, b.col)).collect::<Vec<_>>())));
+                    }
+                }
+            }
+            // snippet
+            let mut buf: Vec<u8> = vec![];
+            let opts = SliceOptions { disable_color: true, ..Default::default() };
+            let r2 = guarded(|| {
+                let mut em = DiagnosticEmitter::new(&mut buf, &opts, &files);
+                em.emit_diagnostics(vec![raw]).map_err(|e| e.to_string())
+            });
+            match r2 {
+                Err((loc, msg)) => {
+                    out.violate(format!("c09/diagnostic/{}/snippet-panic@{loc}", d.code), ctx(&format!("rendering the snippet panicked: {msg}")));
+                    continue;
+                }
+                Ok(Err(e)) => {
+                    out.violate(format!("c09/diagnostic/{}/snippet-error", d.code), ctx(&e));
+                    continue;
+                }
+                Ok(Ok(())) => {}
+            }
+            let stream = String::from_utf8_lossy(&buf).to_string();
+            // the first location line belongs to the diagnostic itself
+            let sl: Vec<&str> = stream.lines().collect();
+            let Some(li) = sl.iter().position(|l| l.starts_with(" --> ")) else {
+                out.violate(format!("c09/diagnostic/{}/no-location-line", d.code), ctx(&stream));
+                continue;
+            };
+            // numbered lines and their highlight lines
+            let mut row = s.row;
+            let mut k = li + 2; // skip the location line and the first gutter line
+            while row <= t.row && row <= lines.len() {
+                obligations += 1;
+                let Some(src_line) = sl.get(k) else {
+                    out.violate(format!("c09/diagnostic/{}/snippet-lines-missing", d.code), ctx(&format!("snippet ends before row {row}:\n{stream}")));
+                    break;
+                };
+                let Some(hl_line) = sl.get(k + 1) else { break };
+                let Some((num, _shown)) = src_line.split_once('|') else {
+                    out.violate(format!("c09/diagnostic/{}/snippet-format", d.code), ctx(&format!("unexpected snippet line {src_line:?}:\n{stream}")));
+                    break;
+                };
+                if num.trim().parse::<usize>().ok() != Some(row) {
+                    out.violate(format!("c09/diagnostic/{}/snippet-line-number", d.code), ctx(&format!("snippet shows line number {:?} for row {row}:\n{stream}", num.trim())));
+                    break;
+                }
+                let chars: Vec<char> = lines[row - 1].chars().collect();
+                let hs = if row == s.row { s.col - 1 } else { 0 };
+                let he = if row == t.row { t.col - 1 } else { chars.len() };
+                let hl = hl_line.split_once('|').map(|x| x.1).unwrap_or("");
+                let lead = hl.chars().take_while(|c| *c == ' ').count();
+                let mark: String = hl.chars().skip(lead).collect();
+                if he < hs {
+                    out.violate(format!("c09/diagnostic/{}/span-columns-reversed-on-line", d.code), ctx(&format!("row {row}: columns {hs}..{he}")));
+                    break;
+                }
+                if hs == he {
+                    if !(mark == "/\\" && lead == visual(&chars, hs)) {
+                        out.violate(format!("c09/diagnostic/{}/snippet-pointer", d.code), ctx(&format!("row {row}: empty span at column {} must be shown by a pointer under it; highlight line {hl_line:?}:\n{stream}", hs + 1)));
+                        break;
+                    }
+                } else {
+                    let exp_lead = 1 + visual(&chars, hs);
+                    let exp_len = visual(&chars, he.min(chars.len())) - visual(&chars, hs.min(chars.len())) + he.saturating_sub(chars.len().max(hs));
+                    if lead != exp_lead || mark.chars().any(|c| c != '-') || mark.chars().count() != exp_len {
+                        out.violate(
+                            format!("c09/diagnostic/{}/snippet-underline", d.code),
+                            ctx(&format!("row {row}: the underline must start {exp_lead} columns after the gutter and be {exp_len} long (tabs shown as 4 spaces), but the highlight line is {hl_line:?} (starts at {lead}, {} long):\n{stream}", mark.chars().count())),
+                        );
+                        break;
+                    }
+                }
+                row += 1;
+                k += 2;
+            }
+            // nothing but the spanned lines is shown
+            if let Some(next) = sl.get(k) {
+                if next.split_once('|').map_or(false, |(num, _)| num.trim().parse::<usize>().is_ok()) {
+                    out.violate(format!("c09/diagnostic/{}/snippet-shows-extra-line", d.code), ctx(&format!("the snippet shows a line after the last spanned row:\n{stream}")));
+                }
+            }
+        }
+        let _ = text0;
+        let _ = ks;
+        out.steps = obligations;
+        out.class = format!("{}-diagnostics:{}-obligations", diags.len().min(8), (obligations / 4) * 4);
+        let mut seen = std::collections::HashSet::new();
+        out.violations.retain(|v| seen.insert(v.sig.clone()));
+        out
+    }
+}
+impl DiagnosticSpans {
+    fn decode(&self, idx: u64) -> (crate::model::ast::Program, Layout, Vec<usize>) {
+        let li = (idx % 6) as usize;
+        let mut r = idx / 6;
+        let mut ks = vec![];
+        for _ in 0..self.arity {
+            ks.push((r % N_SOURCES as u64) as usize);
+            r /= N_SOURCES as u64;
+        }
+        let mut f = MFile::module("M");
+        for (i, k) in ks.iter().enumerate() {
+            f.defs.extend(diag_source(*k, i));
+        }
+        (vec![f, crate::model::gen::lib_file()], Layout::uniform(DIAG_LAYOUTS[li], Commas::None), ks)
+    }
+}
+
 pub fn families(tier: &str) -> Vec<Box<dyn Family>> {
-    crate::model::families::program_families(tier).into_iter().map(|f| Box::new(Positions { inner: f }) as Box<dyn Family>).collect()
+    let mut v: Vec<Box<dyn Family>> = vec![Box::new(DiagnosticSpans { arity: 1 }), Box::new(DiagnosticSpans { arity: 2 })];
+    v.extend(crate::model::families::program_families(tier).into_iter().map(|f| Box::new(Positions { inner: f }) as Box<dyn Family>));
+    v
 }
